@@ -344,6 +344,21 @@ pub fn run(args: &Args) -> Report {
         }
     }
 
+    // ---- listFirst: every combination of empty / non-empty collections and optionals in
+    //      an all-optional query string (which parameter is written first varies)
+    for items in [vec![], vec!["a".to_string()], vec!["a".to_string(), "&b".to_string()]] {
+        for tags in [BTreeSet::new(), ["x".to_string()].into_iter().collect::<BTreeSet<String>>(), ["x".to_string(), "".to_string()].into_iter().collect()] {
+            for opt_str in [None, Some(""), Some("o=1")] {
+                for tail in [vec![], vec![1], vec![1, -2]] {
+                    let args = vec![rec(&items), rec(&tags), rec(&opt_str), rec(&tail)];
+                    run_case(&mut cx, "list_first", "all", &format!("{}{}{}{}", items.len(), tags.len(), opt_str.is_some() as u8, tail.len()), args, rec(&()), false, &|_| {},
+                        &|rig| ok(rig.client().list_first(&items, &tags, opt_str, &tail)),
+                        &|rig| ok(block_on(rig.async_client().list_first(&items, &tags, opt_str, &tail))));
+                }
+            }
+        }
+    }
+
     // ---- headers
     {
         let u = Uuid::from_u128(7);
